@@ -345,6 +345,41 @@ func serGen(g *G, tier string) []M {
 		n = 1500
 	}
 	var ops []M
+	// every place an enum number sits, with numbers below, above and between the defined ones, in
+	// every format: always, not at random
+	enumDoc := func(mut func(app, lib M, edge M)) M {
+		app := M{"id": "app", "type": 0.0, "a": M{"Name": "app", "PrimaryPurpose": []any{1.0}}}
+		lib := M{"id": "lib", "type": 0.0, "a": M{"Name": "lib", "Hashes": []any{[]any{3.0, "aa"}}, "Identifiers": []any{[]any{1.0, "pkg:npm/lib@1"}},
+			"ExternalReferences": []any{M{"t": 4.0, "u": "http://a"}}}}
+		edge := M{"ty": 5.0, "src": "app", "tos": []any{"lib"}}
+		mut(app, lib, edge)
+		return M{"meta": M{"id": "urn:uuid:1", "version": "1", "name": "enum", "types": []any{}}, "nl": M{"nodes": []any{app, lib}, "edges": []any{edge}, "roots": []any{"app"}}}
+	}
+	for _, v := range []float64{-1, -7, 0, 29, 45, 77, 9999, -2147483648, 2147483647} {
+		for k, mut := range []func(app, lib, edge M){
+			func(app, lib, edge M) { app["a"].(M)["PrimaryPurpose"] = []any{v} },
+			func(app, lib, edge M) { lib["a"].(M)["PrimaryPurpose"] = []any{1.0, v} },
+			func(app, lib, edge M) { lib["type"] = v },
+			func(app, lib, edge M) { lib["a"].(M)["Hashes"] = []any{[]any{v, "aa"}} },
+			func(app, lib, edge M) { lib["a"].(M)["Identifiers"] = []any{[]any{v, "x"}} },
+			func(app, lib, edge M) { edge["ty"] = v },
+			func(app, lib, edge M) {
+				lib["a"].(M)["ExternalReferences"] = []any{M{"t": v, "u": "http://a", "h": []any{[]any{v, "bb"}}}}
+			},
+		} {
+			d := enumDoc(mut)
+			f := serFormats[len(ops)%len(serFormats)]
+			docs := []any{M{"doc": d, "nils": []any{}, "indent": 2.0}}
+			ops = append(ops, M{"op": "serSeq", "fmt": string(f), "docs": docs})
+			if tier == "thorough" || k < 3 {
+				for _, f2 := range serFormats {
+					if f2 != f {
+						ops = append(ops, M{"op": "serSeq", "fmt": string(f2), "docs": docs})
+					}
+				}
+			}
+		}
+	}
 	for i := 0; i < n; i++ {
 		good := g.serDoc()
 		gd := DocOf(good)
@@ -405,6 +440,17 @@ func serGen(g *G, tier string) []M {
 			for _, ff := range []formats.Format{formats.CDX14JSON, formats.CDX15JSON, formats.SPDX23JSON} {
 				ops = append(ops, M{"op": "serSeq", "fmt": string(ff), "docs": []any{mk(dia), mk(dia), mk(dia), mk(dia), mk(dia), mk(dia)}})
 			}
+			// the same shape with the nodes stored in an order that is not the order of their identifiers,
+			// written in every format in turn, the experimental one included: one value, one output per format
+			dia2 := M{"meta": M{"id": "urn:uuid:1", "version": "1"}, "nl": M{
+				"nodes": []any{M{"id": "root", "type": 0.0, "a": M{}}, M{"id": "zeta", "type": 0.0, "a": M{}}, M{"id": "alpha", "type": 0.0, "a": M{}},
+					M{"id": "shared", "type": 0.0, "a": M{}}},
+				"edges": []any{M{"ty": 5.0, "src": "root", "tos": []any{"zeta", "alpha"}}, M{"ty": 5.0, "src": "zeta", "tos": []any{"shared"}},
+					M{"ty": 5.0, "src": "alpha", "tos": []any{"shared"}}},
+				"roots": []any{"root"}}}
+			in2 := func(ff formats.Format) M { m := mk(dia2); m["indent"] = 2.0; m["fmt"] = string(ff); return m }
+			ops = append(ops, M{"op": "serSeq", "fmt": string(formats.CDX15JSON), "docs": []any{in2(formats.CDX15JSON), in2(SPDX3JSON), in2(formats.CDX15JSON),
+				in2(formats.SPDX23JSON), in2(SPDX3JSON), in2(formats.CDX14JSON), in2(formats.SPDX23JSON)}})
 		}
 	}
 	// every third history goes through one writer per format (same indentation for all its entries)
@@ -434,6 +480,10 @@ func serGen(g *G, tier string) []M {
 func oracleSer(op M, res any, exec func(M) any) []Finding {
 	var out []Finding
 	add := func(f string, a ...any) { out = append(out, Finding{"C07", fmt.Sprintf(f, a...)}) }
+	if s, ok := res.(string); ok && strings.HasPrefix(s, "process-ended") {
+		add("serializing this sequence ended the process (%s): a fatal error no caller can recover from", s)
+		return out
+	}
 	if s, ok := res.(string); ok {
 		if strings.HasPrefix(s, "panic") {
 			add("serializing panicked outside the watchdog: %s", s)
@@ -491,4 +541,7 @@ var SerStream = &Stream{
 	OpProps:    func(op M) []string { return []string{"C07"} },
 	Reps:       1,
 	NoModel:    func(op M) bool { return true },
+	// in child processes: a serializer that ends the process (stack exhaustion, concurrent map
+	// writes) must cost one finding, not the run
+	ExecBatch: func(ops []M) []any { return childBatch("ser", ops) },
 }
